@@ -576,6 +576,52 @@ def r168(ctx, impls):
             ctx.bad(rid, dr, f"{cname}: the drawn velocities are not converted to the engine's velocity unit (division by {want[0]}, {want[1]})", construct=f"{cname}: unit conversion missing")
 
 
+def r1611(ctx):
+    """Shape of the momentum reset shared by the engines: total momentum = sum over particles of
+    mass * velocity (the product inside the reduction over axis 0), removed as momentum / total
+    mass from every particle. `mass * sum(vel)` is a different quantity unless all masses are equal."""
+    from ..flow import deref
+    rid = "R-16.11"
+    tree = ctx.tree
+    f = tree.func(CP2K, "reset_momentum")
+    ps = [a.arg for a in f.args.args]
+    if len(ps) < 2:
+        raise AnalysisError("R-16.11: reset_momentum(vel, mass) expected")
+    vel, mass = ps[0], ps[1]
+    fl = flow_of(f)
+    cfg = fl.cfg
+    subs = [n for n in walk_local(f) if (isinstance(n, ast.AugAssign) and isinstance(n.op, ast.Sub) and path_of(n.target) == vel) or (isinstance(n, ast.BinOp) and isinstance(n.op, ast.Sub) and path_of(n.left) == vel)]
+    if not subs:
+        raise AnalysisError("R-16.11: the statement that removes the centre-of-mass velocity was not found")
+    st = subs[0]
+    corr = st.value if isinstance(st, ast.AugAssign) else st.right
+    at = cfg.node_of(st)
+    corr, cat = deref(fl, corr, at)
+    ok = False
+    why = f"the correction `{short(corr, 50)}` is not <total momentum> / <total mass>"
+    if isinstance(corr, ast.BinOp) and isinstance(corr.op, ast.Div):
+        num, nat = deref(fl, corr.left, cat)
+        den, _ = deref(fl, corr.right, cat)
+        den_ok = (isinstance(den, ast.Call) and last_name(den) == "sum" and ((isinstance(den.func, ast.Attribute) and path_of(den.func.value) == mass) or (den.args and path_of(den.args[0]) == mass)))
+        arg = None
+        if isinstance(num, ast.Call) and last_name(num) == "sum":
+            arg = num.args[0] if num.args else (num.func.value if isinstance(num.func, ast.Attribute) else None)
+            if isinstance(num.func, ast.Attribute) and path_of(num.func.value) not in ("np", "numpy"):
+                arg = num.func.value
+        prod_inside = isinstance(arg, ast.BinOp) and isinstance(arg.op, ast.Mult) and {path_of(arg.left), path_of(arg.right)} == {vel, mass}
+        axis = kwarg(num, "axis", 1) if isinstance(num, ast.Call) else None
+        if prod_inside and den_ok and isinstance(axis, ast.Constant) and axis.value == 0:
+            ok = True
+        elif not prod_inside:
+            why = f"the total momentum is computed as `{short(num, 50)}`: the masses are not inside the sum over the particles (sum_i m_i v_i), so for unequal masses the regenerated velocities keep a net momentum"
+        elif not den_ok:
+            why = f"the momentum is divided by `{short(den, 30)}`, not by the total mass"
+    if ok:
+        ctx.ok(rid, st, "reset_momentum removes sum_i(m_i v_i) / sum_i(m_i) from every particle")
+    else:
+        ctx.bad(rid, st, f"reset_momentum: {why}", construct="reset_momentum: " + short(corr, 60))
+
+
 def run(ctx):
     ctx.rule("R-16.1", "positions, box and identities written are exactly those read from the dumped frame; only velocities are regenerated", floor=14)
     ctx.rule("R-16.2", "the regenerated frame goes to a fresh file under exe_dir; system.config re-pointed; caller passes a copy", floor=10)
@@ -585,6 +631,8 @@ def run(ctx):
     ctx.rule("R-16.8", "variance clause, symbolically: normal(0, sigma) with sigma^2*beta*mass == 1; beta*kB*T == 1 per engine; kB in the engine's energy unit; no rescaling between draw and writer except the engine's unit factor", floor=14)
     ctx.rule("R-16.7", "the frame index of the configuration that is dumped before velocity regeneration is tested with `is None`, never by truthiness (index 0 is a frame)", floor=5)
     ctx.rule("R-16.6", "positional role agreement in velocity regeneration: (dek, kin_new), (vel, sigma_v), (xyz, vel, box, names) and writer arguments sit where the callee returns / expects them", floor=8)
+    ctx.rule("R-16.11", "momentum reset: sum over particles of mass * velocity (product inside the reduction) divided by the total mass", floor=1)
+    ctx.attempt(r1611, ctx)
     ctx.rule("R-16.10", "the kinetic energies whose difference is reported are computed by the same expression before and after the regeneration (same unit, same mass table)", floor=3)
     ctx.rule("R-16.9", "a callee handed an ensemble dictionary looks up only keys that record has (velocity settings such as zero_momentum live in its tis_set; a .get() on the ensemble itself silently yields the default)", floor=8)
     from .shared import ensemble_record_agreement
@@ -622,6 +670,8 @@ def run(ctx):
 
 
 VARIANTS = [
+    B("c16-momentum-mass-outside-sum", CP2K, "    mom = np.sum(vel * mass, axis=0)", "    mom = mass * np.sum(vel, axis=0)", "R-16.11", control=True, why="seeded C16_i"),
+    K("c16-keep-momentum-product-reordered", CP2K, "    mom = np.sum(vel * mass, axis=0)", "    mom = np.sum(mass * vel, axis=0)"),
     B("c16-lammps-new-kinetic-energy-rescaled", LAMMPS, "        kin_new = kinetic_energy(vel, mass)[0]\n        system.config = (conf_out, 0)", "        kin_new = kinetic_energy(vel, mass)[0] * scale**2\n        system.config = (conf_out, 0)", "R-16.10", control=True, why="seeded C16_h"),
     B("c16-lammps-reset-result-discarded", LAMMPS, "        if vel_settings.get(\"zero_momentum\", False):\n            vel = reset_momentum(vel, mass)\n\n        conf_out = os.path.join(self.exe_dir, f\"genvel.{self.ext}\")\n        write_lammpstrj", "        if vel_settings.get(\"zero_momentum\", False):\n            reset_momentum(vel, mass)\n\n        conf_out = os.path.join(self.exe_dir, f\"genvel.{self.ext}\")\n        write_lammpstrj", "R-16.3",
       also=[(CP2K, "    mom = np.sum(vel * mass, axis=0)\n    vel -= mom / mass.sum()\n    return vel", "    vel_com = np.sum(vel * mass, axis=0) / mass.sum()\n    return vel - vel_com")], why="seeded C16_g (two sites)"),
